@@ -170,11 +170,6 @@ def rEntry (e : B6.Model.Containers.Entry) : String := s!"{e.id.toNat}:{e.tag.to
 
 /-! ## the string table spec -/
 
-def stringsOf (f : Feature) : List Str :=
-  (f.tags.flatMap fun t => t.key :: (match t.val with
-    | .str s => [s]
-    | _ => [])) ++ f.members.map (·.role)
-
 def countOf (all : List Str) (s : Str) : Nat := (all.filter (· == s)).length
 
 def nonIncreasing : List Nat → Bool
